@@ -268,7 +268,7 @@ def tasks(tier, seed):
                 taxonomy=fx.random_taxonomy_spec(rng, 1 + r % 3, 6), ref_encoding=encs[r % 3], encoding=encs[(r + 1) % 3],
                 n_query=8), config=dict()))
     cent = []
-    shapes = ['d3_bal', 'd2_bal', 'd3_chain', 'd1_four', 'd2_single_child', 'd3_mid_single']
+    shapes = ['d3_bal', 'd2_bal', 'd3_chain', 'd1_four', 'd2_single_child', 'd3_mid_single', 'd3_reuse']
     for i, s in enumerate(shapes):
         h = fx.taxonomy_spec(s)['hierarchy']
         factors = dict(bootstrap_factor=[0.3, 0.5, 0.8, 1.0], bootstrap_iteration=[1, 10, 300], chunk_size=[2, 40],
